@@ -48,6 +48,11 @@ class Pattern(Serialize, ABC):
         return repr(self.to_regexp())
 
     # Pattern Hashing assumes all subclasses have a different priority!
+    def _deserialize(self):
+        # Serialization turns the frozenset into a list; restore it, so that flag
+        # comparisons (subset tests) and hashing behave as in a freshly built parser
+        self.flags = frozenset(self.flags)
+
     def __hash__(self):
         return hash((type(self), self.value, self.flags))
 
